@@ -275,8 +275,19 @@ func (b *OptionalBounds) MaxZ() (z int32, ok bool) {
 	return *(b.maxz), true
 }
 
+// floorDiv returns the quotient rounded toward negative infinity, so that a negative
+// voxel coordinate maps to the block that contains it.
+func floorDiv(a, b int32) int32 {
+	q := a / b
+	if a%b != 0 && (a < 0) != (b < 0) {
+		q--
+	}
+	return q
+}
+
 // Divide returns a new bounds that has all optionally set
-// bounds divided by the given point.
+// bounds divided by the given point, e.g., voxel bounds are converted into
+// the bounds of the blocks that contain them.
 func (b *OptionalBounds) Divide(pt Point3d) *OptionalBounds {
 	if b == nil {
 		return nil
@@ -284,27 +295,27 @@ func (b *OptionalBounds) Divide(pt Point3d) *OptionalBounds {
 	newB := new(OptionalBounds)
 	if b.minx != nil {
 		newB.minx = new(int32)
-		*(newB.minx) = *(b.minx) / pt[0]
+		*(newB.minx) = floorDiv(*(b.minx), pt[0])
 	}
 	if b.maxx != nil {
 		newB.maxx = new(int32)
-		*(newB.maxx) = *(b.maxx) / pt[0]
+		*(newB.maxx) = floorDiv(*(b.maxx), pt[0])
 	}
 	if b.miny != nil {
 		newB.miny = new(int32)
-		*(newB.miny) = *(b.miny) / pt[1]
+		*(newB.miny) = floorDiv(*(b.miny), pt[1])
 	}
 	if b.maxy != nil {
 		newB.maxy = new(int32)
-		*(newB.maxy) = *(b.maxy) / pt[1]
+		*(newB.maxy) = floorDiv(*(b.maxy), pt[1])
 	}
 	if b.minz != nil {
 		newB.minz = new(int32)
-		*(newB.minz) = *(b.minz) / pt[2]
+		*(newB.minz) = floorDiv(*(b.minz), pt[2])
 	}
 	if b.maxz != nil {
 		newB.maxz = new(int32)
-		*(newB.maxz) = *(b.maxz) / pt[2]
+		*(newB.maxz) = floorDiv(*(b.maxz), pt[2])
 	}
 	return newB
 }
